@@ -108,7 +108,7 @@ func c02Oracle(sc *Scenario, rec *Rec, s *mc.Sched) []mc.Violation {
 		if res == "nil" && rpc.serverStreams() {
 			continue // a message
 		}
-		if sc.Cancel != "" && !success && res != "nil" && !(res == "EOF" && k > 0) {
+		if sc.Cancel != "" && !success && res != "nil" && !(res == "EOF" && (k > 0 || ref.Status == "nil")) {
 			// interfered with: the handler's status or the cancellation's, nothing else
 			want := map[string]string{"cancel": "Canceled", "deadline": "DeadlineExceeded"}[sc.Cancel]
 			if c := statusCodeOf(res); c != want && (ref.Status == "nil" || (ref.Code != "any" && c != ref.Code)) {
